@@ -946,3 +946,240 @@ Proof.
   - intros ND. rewrite <- A in ND. eapply NoDup_app_left. exact ND.
   - intros j. rewrite app_assoc, <- accepted_app, firstn_skipn. exact A.
 Qed.
+
+(* ====================================================================== *)
+(* 8. readiness: blocked operations of the polling driver                   *)
+
+Lemma os_take_bounds k room want :
+  1 <= room -> 1 <= want -> 1 <= os_take k room want /\ os_take k room want <= Nat.min room want.
+Proof. unfold os_take. lia. Qed.
+
+(* A send that found the send buffer full is blocked; as soon as the peer has
+   READ something (and has sent NOTHING: its direction is empty and open) the
+   poller reports the descriptor writable and the retried call completes. *)
+Theorem blocked_send_resumes C q data k_os kd :
+  length q = C -> data <> [] ->
+  send_submit send_interest C q data k_os = (OpBlocked send_interest, q) /\
+  (1 <= kd -> kd <= C ->
+   forall k2, exists n,
+     send_retry send_interest C (skipn kd q) [] false data k2
+       = (OpDone n, skipn kd q ++ firstn n data) /\
+     1 <= n /\ n <= Nat.min kd (length data)).
+Proof.
+  intros Hq Hd.
+  assert (Hl : 1 <= length data) by (destruct data; [congruence|cbn; lia]).
+  split.
+  - unfold send_submit. rewrite Hq, Nat.sub_diag. cbn [Nat.eqb andb].
+    destruct (length data =? 0) eqn:E; [apply Nat.eqb_eq in E; lia|reflexivity].
+  - intros H1 H2 k2. unfold send_retry, fd_events.
+    assert (Hs : length (skipn kd q) = C - kd) by (rewrite skipn_length; lia).
+    rewrite Hs. destruct (C - kd <? C) eqn:E; [|apply Nat.ltb_ge in E; lia].
+    cbn [length Nat.leb orb app existsb interest_eqb send_interest].
+    unfold send_submit. rewrite Hs.
+    replace (C - (C - kd)) with kd by lia.
+    destruct (kd =? 0) eqn:E0; [apply Nat.eqb_eq in E0; lia|]. cbn [andb].
+    destruct (length data =? 0) eqn:E1; [apply Nat.eqb_eq in E1; lia|].
+    destruct (os_take_bounds k2 kd (length data) H1 Hl) as [A B].
+    eexists. split; [reflexivity|]. split; assumption.
+Qed.
+
+(* the fault class: with the wrong interest the send stays blocked for every
+   amount the peer reads, as long as the peer sends nothing *)
+Lemma wrong_interest_stalls C q' data k :
+  send_retry IReadable C q' [] false data k = (OpBlocked IReadable, q').
+Proof.
+  unfold send_retry, fd_events. cbn [length Nat.leb orb].
+  destruct (length q' <? C); reflexivity.
+Qed.
+
+(* symmetric: a receive on an empty open socket is blocked and resumes when
+   the peer has written, whatever the state of the other direction *)
+Theorem blocked_recv_resumes C q_out bs cap k_os :
+  1 <= cap -> bs <> [] ->
+  recv_submit recv_interest [] false cap k_os = (OpBlocked recv_interest, [], []) /\
+  forall k2, exists n,
+    recv_retry recv_interest C q_out bs false cap k2 = (OpDone n, firstn n bs, skipn n bs) /\
+    1 <= n /\ n <= Nat.min (length bs) cap.
+Proof.
+  intros Hc Hb.
+  assert (Hl : 1 <= length bs) by (destruct bs; [congruence|cbn; lia]).
+  split.
+  - unfold recv_submit. cbn [length Nat.eqb negb andb].
+    destruct (cap =? 0) eqn:E; [apply Nat.eqb_eq in E; lia|reflexivity].
+  - intros k2. unfold recv_retry, fd_events.
+    destruct (1 <=? length bs) eqn:E1; [|apply Nat.leb_gt in E1; lia]. cbn [orb].
+    assert (Hex : existsb (interest_eqb recv_interest)
+              ((if length q_out <? C then [IWritable] else []) ++ [IReadable]) = true).
+    { rewrite existsb_app. cbn. apply orb_true_r. }
+    rewrite Hex. unfold recv_submit.
+    destruct (length bs =? 0) eqn:E2; [apply Nat.eqb_eq in E2; lia|]. cbn [andb].
+    destruct (cap =? 0) eqn:E3; [apply Nat.eqb_eq in E3; lia|]. cbn [orb].
+    destruct (os_take_bounds k2 (length bs) cap Hl Hc) as [A B].
+    eexists. split; [reflexivity|]. split; assumption.
+Qed.
+
+(* ---- the whole transfer under back-pressure ----------------------------- *)
+Lemma send_retry_shape i C q1 qi cl data k :
+  (exists m, send_retry i C q1 qi cl data k = (OpDone m, q1 ++ firstn m data)) \/
+  send_retry i C q1 qi cl data k = (OpBlocked i, q1).
+Proof.
+  unfold send_retry. destruct (existsb _ _); [|right; reflexivity].
+  unfold send_submit. destruct ((C - length q1 =? 0) && negb (length data =? 0)); [right; reflexivity|].
+  left. eexists. reflexivity.
+Qed.
+
+Lemma bp_run_conserve i C ks : forall q rem g qf rf,
+  bp_run i C q rem ks = (g, qf, rf) -> g ++ qf ++ rf = q ++ rem.
+Proof.
+  induction ks as [|k r IH]; intros q rem g qf rf H.
+  - cbn in H. injection H as <- <- <-. reflexivity.
+  - cbn [bp_run] in H.
+    set (n := Nat.min k (length q)) in *.
+    destruct (match rem with
+              | [] => (skipn n q, rem)
+              | _ :: _ =>
+                match send_retry i C (skipn n q) [] false rem (length rem) with
+                | (OpDone m, q') => (q', skipn m rem)
+                | (OpBlocked _, q') => (q', rem)
+                end
+              end) as [q2 rem2] eqn:E.
+    destruct (bp_run i C q2 rem2 r) as [[g' qf'] rf'] eqn:E2. injection H as <- <- <-.
+    rewrite <- app_assoc, (IH _ _ _ _ _ E2).
+    assert (Hc : q2 ++ rem2 = skipn n q ++ rem).
+    { destruct rem as [|x t]; [injection E as <- <-; reflexivity|].
+      destruct (send_retry_shape i C (skipn n q) [] false (x :: t) (length (x :: t))) as [[m Hm]|Hm];
+        rewrite Hm in E; injection E as <- <-; [|reflexivity].
+      rewrite <- app_assoc, firstn_skipn. reflexivity. }
+    rewrite Hc, app_assoc, firstn_skipn. reflexivity.
+Qed.
+
+Lemma bp_run_progress C ks : forall q rem g qf rf,
+  1 <= C -> Forall (fun k => 1 <= k) ks ->
+  length q <= C -> (rem <> [] -> q <> []) ->
+  bp_run send_interest C q rem ks = (g, qf, rf) ->
+  length qf + length rf <= (length q + length rem) - length ks.
+Proof.
+  induction ks as [|k r IH]; intros q rem g qf rf HC HF Hq Hinv H.
+  - cbn in H. injection H as <- <- <-. cbn. lia.
+  - inversion HF as [|? ? Hk HF2]; subst.
+    cbn [bp_run] in H.
+    set (n := Nat.min k (length q)) in *.
+    destruct (match rem with
+              | [] => (skipn n q, rem)
+              | _ :: _ =>
+                match send_retry send_interest C (skipn n q) [] false rem (length rem) with
+                | (OpDone m, q') => (q', skipn m rem)
+                | (OpBlocked _, q') => (q', rem)
+                end
+              end) as [q2 rem2] eqn:E.
+    destruct (bp_run send_interest C q2 rem2 r) as [[g' qf'] rf'] eqn:E2. injection H as <- <- <-.
+    assert (Hs : length (skipn n q) = length q - n) by apply skipn_length.
+    (* the step keeps the invariants and takes n bytes out *)
+    assert (Hstep : length q2 + length rem2 = length q + length rem - n /\
+                    length q2 <= C /\ (rem2 <> [] -> q2 <> [])).
+    { destruct rem as [|x t].
+      - injection E as <- <-. rewrite Hs. cbn [length]. repeat split; try lia. congruence.
+      - assert (Hqne : q <> []) by (apply Hinv; discriminate).
+        assert (Hql : 1 <= length q) by (destruct q; [congruence|cbn; lia]).
+        assert (Hn : 1 <= n) by (unfold n; lia).
+        unfold send_retry, fd_events in E. rewrite Hs in E.
+        destruct (length q - n <? C) eqn:Elt; [|apply Nat.ltb_ge in Elt; lia].
+        cbn [length Nat.leb orb app existsb interest_eqb send_interest] in E.
+        unfold send_submit in E. rewrite Hs in E.
+        destruct (C - (length q - n) =? 0) eqn:E0; [apply Nat.eqb_eq in E0; lia|].
+        cbn [andb] in E. cbn [length Nat.eqb] in E.
+        set (m := os_take (S (length t)) (C - (length q - n)) (S (length t))) in *.
+        destruct (os_take_bounds (S (length t)) (C - (length q - n)) (S (length t))) as [A B]; [lia|lia|].
+        fold m in A, B. injection E as <- <-.
+        rewrite !app_length, !firstn_length, !skipn_length. cbn [length].
+        repeat split; try lia.
+        intros _ Hnil. apply app_eq_nil in Hnil as [_ Hf].
+        destruct m; [lia|]. discriminate Hf. }
+    destruct Hstep as (S1 & S2 & S3).
+    specialize (IH _ _ _ _ _ HC HF2 S2 S3 E2). cbn [length].
+    destruct (length q) as [|lq] eqn:Elq.
+    + (* q = [] hence rem = []: nothing left at all *)
+      destruct rem as [|x t]; [cbn [length] in *; lia|].
+      exfalso. apply Hinv; [discriminate|]. destruct q; [reflexivity|discriminate].
+    + assert (1 <= n) by (unfold n; lia). lia.
+Qed.
+
+(* every send flavour is this loop; with the right interest everything the
+   writer holds arrives, in order, although the peer never sends a byte *)
+Theorem backpressure_delivers_all C q rem ks :
+  1 <= C -> Forall (fun k => 1 <= k) ks ->
+  length q <= C -> (rem <> [] -> q <> []) ->
+  length q + length rem <= length ks ->
+  bp_run send_interest C q rem ks = (q ++ rem, [], []).
+Proof.
+  intros HC HF Hq Hinv Hlen.
+  destruct (bp_run send_interest C q rem ks) as [[g qf] rf] eqn:E.
+  pose proof (bp_run_progress _ _ _ _ _ _ _ HC HF Hq Hinv E) as P.
+  pose proof (bp_run_conserve _ _ _ _ _ _ _ _ E) as K.
+  assert (qf = []) by (destruct qf; [reflexivity|cbn in P; lia]).
+  assert (rf = []) by (destruct rf; [reflexivity|cbn in P; lia]).
+  subst. rewrite !app_nil_r in K. subst g. reflexivity.
+Qed.
+
+(* with the wrong interest the writer keeps what did not fit, for ever *)
+Theorem wrong_interest_never_delivers C ks : forall q rem,
+  rem <> [] -> length q = C ->
+  exists g qf, bp_run IReadable C q rem ks = (g, qf, rem).
+Proof.
+  induction ks as [|k r IH]; intros q rem Hr Hq.
+  - eexists _, _. reflexivity.
+  - cbn [bp_run]. destruct rem as [|x t]; [congruence|].
+    rewrite wrong_interest_stalls.
+    (* the queue only shrinks; the invariant needed is just rem <> [] *)
+    revert IH. generalize (skipn (Nat.min k (length q)) q). intros q1 IH.
+    assert (G : forall q0, exists g qf, bp_run IReadable C q0 (x :: t) r = (g, qf, x :: t)).
+    { clear -Hr. induction r as [|k2 r2 IH2]; intros q0.
+      - eexists _, _. reflexivity.
+      - cbn [bp_run]. rewrite wrong_interest_stalls.
+        destruct (IH2 (skipn (Nat.min k2 (length q0)) q0)) as (g & qf & E). rewrite E.
+        eexists _, _. reflexivity. }
+    destruct (G q1) as (g & qf & E). rewrite E. eexists _, _. reflexivity.
+Qed.
+
+(* ---- counts are a sound abstraction of the byte queue -------------------- *)
+Theorem count_abstraction s l s' o :
+  ref_step s l = Some (s', o) -> cstep (cabs s) (clabel_of l) = Some (cabs s').
+Proof.
+  destruct l as [data k| |cap k|k]; cbn [ref_step clabel_of cstep cabs cq cclosed].
+  - unfold send_ok.
+    destruct (negb (sclosed s)) eqn:Ec; cbn [andb]; [|discriminate].
+    destruct (k <=? length data) eqn:E1; cbn [andb]; [|discriminate].
+    destruct ((1 <=? k) || (length data =? 0)) eqn:E2; [|discriminate].
+    intros [= <- <-]. apply Nat.leb_le in E1.
+    assert (A : (N.of_nat k <=? N.of_nat (length data))%N = true) by (apply N.leb_le; lia).
+    assert (B : ((1 <=? N.of_nat k)%N || (N.of_nat (length data) =? 0)%N) = true).
+    { apply orb_true_iff in E2 as [E2|E2]; apply orb_true_iff.
+      - left. apply Nat.leb_le in E2. apply N.leb_le. lia.
+      - right. apply Nat.eqb_eq in E2. apply N.eqb_eq. lia. }
+    rewrite A, B. cbn [andb]. unfold cabs. cbn [sq sclosed]. f_equal. f_equal.
+    rewrite app_length, firstn_length. lia.
+  - intros [= <- <-]. reflexivity.
+  - unfold recv_ok.
+    destruct (k <=? cap) eqn:E1; cbn [andb]; [|discriminate].
+    destruct (k <=? length (sq s)) eqn:E2; cbn [andb]; [|discriminate].
+    destruct ((1 <=? k) || (cap =? 0) || ((length (sq s) =? 0) && sclosed s)) eqn:E3; [|discriminate].
+    intros [= <- <-]. apply Nat.leb_le in E1, E2.
+    assert (A : (N.of_nat k <=? N.of_nat cap)%N = true) by (apply N.leb_le; lia).
+    assert (B : (N.of_nat k <=? N.of_nat (length (sq s)))%N = true) by (apply N.leb_le; lia).
+    assert (D : ((1 <=? N.of_nat k)%N || (N.of_nat cap =? 0)%N ||
+                 ((N.of_nat (length (sq s)) =? 0)%N && sclosed s)) = true).
+    { apply orb_true_iff in E3 as [E3|E3].
+      - apply orb_true_iff in E3 as [E3|E3].
+        + apply Nat.leb_le in E3. assert (X : (1 <=? N.of_nat k)%N = true) by (apply N.leb_le; lia).
+          rewrite X. reflexivity.
+        + apply Nat.eqb_eq in E3. assert (X : (N.of_nat cap =? 0)%N = true) by (apply N.eqb_eq; lia).
+          rewrite X. apply orb_true_iff. left. apply orb_true_r.
+      - apply andb_true_iff in E3 as [E3 E4]. apply Nat.eqb_eq in E3.
+        assert (X : (N.of_nat (length (sq s)) =? 0)%N = true) by (apply N.eqb_eq; lia).
+        rewrite X, E4. apply orb_true_r. }
+    rewrite A, B, D. cbn [andb]. unfold cabs. cbn [sq sclosed]. f_equal. f_equal. rewrite skipn_length. lia.
+  - destruct (k <=? length (sq s)) eqn:E; [|discriminate]. intros [= <- <-].
+    apply Nat.leb_le in E.
+    assert (A : (N.of_nat k <=? N.of_nat (length (sq s)))%N = true) by (apply N.leb_le; lia).
+    rewrite A. unfold cabs. cbn [sq sclosed]. f_equal. f_equal. rewrite skipn_length. lia.
+Qed.
